@@ -70,6 +70,10 @@ type ErrVal struct {
 	Symbols    []Val    `json:"symbols"`
 	Expected   []string `json:"expected"`
 	StackTop   int      `json:"stack_top"`
+	// ExpectedAlt (reference side only): the sorted terminal sets the expected
+	// list may equal — the action row of the state the error occurred in, or
+	// that of the recovery state
+	ExpectedAlt [][]string `json:"expected_alt,omitempty"`
 }
 
 type CallVal struct {
